@@ -73,6 +73,13 @@ check("C18",
   "Key lists are subsets of payee keys plus two special lists; one payer. The HTTP framing of the route (warp) is not exercised, its body is.",
   "DESIGN.md §3 C18")
 
+check("C13",
+  "explicit-state exploration of the implementation: deviation-bounded producer histories across the window edge with a per-block rebroadcast monitor",
+  "model_checking",
+  "Histories of 2g+5 blocks (g = 3, 4; 5 in thorough) at fee levels 0 and 6000 built with the real producer from a 9-symbol action alphabet (payment, payment with two outputs, dust output, spend of the oldest still-spendable output, NFT mint, empty), default script with 1 deviation everywhere and 2 deviations at g=3 (all g thorough), golden ticket every other block. Monitor on every accepted block at height h > g+1: its rebroadcast transactions are in bijection with the outputs of block h-g-1 that are unspent per the reference ledger and can pay the fee (same owner; amount = value x payout multiplier - size x parent's fee-per-byte, from the parent's header), NFT triples move as triples, too-small outputs are collected (total_fees_atr = rebroadcast fees + dust), nothing else is rebroadcast, and every expired original is refused by the pool afterwards.",
+  "Payout multiplier > 1 is unobservable on the pinned tree (blocks with a treasury payout never validate: C07 known finding). No forks inside these histories (C02/C03 trees cross the window edge with forks).",
+  "DESIGN.md §3 C13")
+
 NOT_YET = "check not built yet in this session (work in progress, see DESIGN.md §8 build order); nothing is claimed for it"
 NA = {}
 
